@@ -32,7 +32,9 @@ MANIFEST = {
 }
 RULE = ("2-4 real threads, each with its own ThreadsafeForwardingResult over one shared target and one semaphore, "
         "each making a script of calls (well-formed tests with explicit times, run-level and test-level tags, all six "
-        "outcomes, guarded startTestRun/stopTestRun/stop/done/shouldStop; some malformed scripts); per-thread fault "
+        "outcomes, guarded startTestRun/stopTestRun between the thread's own tests and stop/done/shouldStop anywhere; "
+        "some malformed scripts - compared with the model only through Corr.C12.alpha, i.e. not in the contents of the "
+        "malformed thread's blocks, and never with startTestRun/stopTestRun inside the thread's own bracket); per-thread fault "
         "plans (each single target call raising; random pairs/triples; Exception- and BaseException-derived); "
         "schedules: every schedule with <= 2 preemptions for fixed 2-thread (quick) and 3-thread (thorough) "
         "programs and for a reporter next to a controller making only guarded calls (stop/shouldStop/stopTestRun/done "
@@ -280,15 +282,18 @@ def term(case, o):
     i = q.record([("threads", q.lst([q.pair(q.lst([t_rcall(c) for c in th["script"]]),
                                             q.lst([q.nat(k) for k in th["faults"]])) for th in case["threads"]])),
                   ("sched", q.lst([q.nat(t) for t in case["sched"]]))])
+    # o_wf is an echo of the input computed by Coq itself (wf_flags): the comparison with the model uses it
     ob = q.record([("o_log", q.lst([t_ev(e) for e in o["log"]])),
                    ("o_sem_free", q.boolean(o["sem_free"])),
-                   ("o_deadlock", q.boolean(o["deadlock"]))])
-    return q.pair(i, ob)
+                   ("o_deadlock", q.boolean(o["deadlock"])),
+                   ("o_wf", "(wf_flags (threads c12_i))")])
+    return "(let c12_i := %s in %s)" % (i, q.pair("c12_i", ob))
 
 
 def perturb(case, o):
-    o = dict(o)
+    o = dict(o)       # something the comparison keeps for every script
     o["log"] = [list(e) for e in o["log"]] + [[0, "acq"]]
+    o["deadlock"] = not o["deadlock"]
     return o
 
 
@@ -354,8 +359,9 @@ def rand_script(rng, tid, ntests, rich=True):
         post = [rand_tags(rng)] if rich and rng.random() < 0.2 else []
         t = mk_test(n, rng.randrange(6), t0, t1, in_tags, post)
         if rich and rng.random() < 0.12:
-            # a guarded call in the middle of the test (never startTestRun)
-            t.insert(rng.randrange(1, len(t)), ["guard", rng.choice([1, 2, 3, 4])])
+            # a guarded call in the middle of the thread's own test: stop / done / shouldStop only - startTestRun
+            # and stopTestRun from inside one's own startTest..stopTest bracket are not a well-formed use
+            t.insert(rng.randrange(1, len(t)), ["guard", rng.choice([2, 3, 4])])
         s += t
     if rich and rng.random() < 0.4:
         s.append(["guard", rng.choice([1, 3])])
@@ -365,13 +371,16 @@ def rand_script(rng, tid, ntests, rich=True):
 def rand_raw_script(rng, tid, n):
     """calls in no particular order: the model must follow the code there too"""
     s = []
+    inside = False
     for _ in range(n):
         r = rng.random()
         t = 10 * tid + rng.randint(1, 2)
         if r < 0.2:
             s.append(["start", t])
+            inside = True
         elif r < 0.4:
             s.append(["stop", t])
+            inside = False
         elif r < 0.65:
             s.append(["out", rng.randrange(6), t])
         elif r < 0.8:
@@ -379,7 +388,7 @@ def rand_raw_script(rng, tid, n):
         elif r < 0.9:
             s.append(["time", rng.choice([None, rng.randint(1, 40)])])
         else:
-            s.append(["guard", rng.randrange(5)])
+            s.append(["guard", rng.choice([2, 3, 4]) if inside else rng.randrange(5)])
     return s
 
 
@@ -508,6 +517,8 @@ def shrink(case):
     for t, th in enumerate(ths):
         for j in range(len(th["script"])):
             s = th["script"][:j] + th["script"][j + 1:]
+            if run_guard_in_bracket(s) and not run_guard_in_bracket(th["script"]):
+                continue
             yield dict(case, threads=ths[:t] + [dict(th, script=s)] + ths[t + 1:])
         for j in range(len(th["faults"])):
             f = th["faults"][:j] + th["faults"][j + 1:]
@@ -538,9 +549,23 @@ def wf_script(script):
             if ph is None or ph != c[1]:
                 return False
             ph = None
-        elif k == "guard" and c[1] == 0 and ph is not None:
+        elif k == "guard" and c[1] in (0, 1) and ph is not None:
             return False
     return True
+
+
+def run_guard_in_bracket(script):
+    """startTestRun / stopTestRun issued by a thread between its own startTest and stopTest: never generated,
+    never produced by shrinking (guards from OTHER threads at any time, and stop/done/shouldStop anywhere, stay)"""
+    inside = False
+    for c in script:
+        if c[0] == "start":
+            inside = True
+        elif c[0] == "stop":
+            inside = False
+        elif c[0] == "guard" and c[1] in (0, 1) and inside:
+            return True
+    return False
 
 
 def distribution(cases):
